@@ -705,6 +705,7 @@ func init() {
 				}
 				c07Precedence(e, r)
 			}},
+			{Name: "block-like-operands", Count: func(string) int { return c07BlockCount() }, Run: func(_ string, idx int, r *Result) { c07BlockRun(idx, r) }},
 			{Name: "layout-separators", Count: func(string) int { return c07BlocksCount(c07LayoutBlocks) * nseps * (c07MaxGaps + 1) }, Run: func(tier string, idx int, r *Result) {
 				d := radix(idx, c07MaxGaps+1, nseps, c07BlocksCount(c07LayoutBlocks))
 				e, ok := c07Blocks(c07LayoutBlocks, d[2])
